@@ -18,7 +18,7 @@ func init() {
 		Technique:   "guarded-sink + loop-latch reachability on the SSA CFG of Database.Add/Check and the four default checkers; who-may-call Backstore.Put; constant table check of DefaultCheckers",
 		Explanation: "Structural necessary conditions for 'only correctly signed, currently valid assertions are accepted': (R1) Database.Add reaches the backstore Put only across Check(assert)==nil on the same assertion; (R2) Database.Check returns nil only with a supported format, a signing key found for (authority-id, sign-key-sha3-384) unless the type has no authority (then authority-id empty), and after the loop over ALL configured checkers advanced only across nil results; (R3) DefaultCheckers contains the four checkers, OpenDatabase falls back to it, and no non-test code configures its own checker list; (R4) CheckSignature returns nil only across verify(content, decodeSignature(sig))==nil on the bytes returned by assert.Signature(), authority==key account, canSign; (R5) findAccountKey only returns a key of the requested authority; the expiry and timestamp checkers return nil for a present key only across the validity predicates; (R6) the set of callers of Backstore.Put is the reviewed one.",
 		NotDecided:  "the cryptography itself; the validity-window comparisons inside isValidAt/isValidAssumingCurTimeWithin; that a one-byte mutation changes the verified content.",
-		Run:         func(c *Ctx) { runC18(c); runC18x(c) },
+		Run:         func(c *Ctx) { runC18(c); runC18x(c); runC18z(c) },
 	})
 }
 
